@@ -135,6 +135,9 @@ type SourceSpec struct {
 	FailMsg      string
 	// Err is the error of an ErrorBuffer.
 	Err error
+	// Deriv: decoration steps Build applies to the constructed buffer, in
+	// order (see derive.go). Empty: the constructor's buffer as it is.
+	Deriv []DerivStep
 }
 
 // Stream returns the bytes the source delivers if read to the end without
@@ -211,6 +214,13 @@ func (s *SourceSpec) Layout() []int {
 }
 
 func (s *SourceSpec) String() string {
+	if len(s.Deriv) > 0 {
+		return s.baseString() + " -> " + s.derivString()
+	}
+	return s.baseString()
+}
+
+func (s *SourceSpec) baseString() string {
 	var sb strings.Builder
 	fmt.Fprintf(&sb, "%s", s.Kind)
 	if s.Kind == ErrorBuffer {
@@ -288,6 +298,9 @@ func (s *SourceSpec) Hash(add func(...interface{})) {
 	if s.Err != nil {
 		add(s.Err.Error())
 	}
+	if len(s.Deriv) > 0 {
+		s.derivHash(add)
+	}
 }
 
 // MkErr builds a source/handler/task error: a gRPC status error, or a plain
@@ -359,6 +372,8 @@ type Probe struct {
 	emitted        int // how often the source returned its FailErr
 	readAfterClose int
 	integrity      []bool
+
+	side side // by-products of SourceSpec.Deriv (derive.go)
 }
 
 // Closes is the number of Close calls the source received.
@@ -621,6 +636,14 @@ func Build(spec *SourceSpec) (buffer.Buffer, *Probe) {
 
 // BuildLogged is Build with a shared event log and an id for the probe.
 func BuildLogged(spec *SourceSpec, log *EventLog, id int) (buffer.Buffer, *Probe) {
+	b, pr := buildBase(spec, log, id)
+	if len(spec.Deriv) > 0 {
+		b = applyDerivs(b, spec, pr)
+	}
+	return b, pr
+}
+
+func buildBase(spec *SourceSpec, log *EventLog, id int) (buffer.Buffer, *Probe) {
 	pr := &Probe{Spec: spec, Log: log, ID: id}
 	src := buffer.UserProvided
 	if spec.Backend {
